@@ -8,7 +8,10 @@ VERIF = os.path.dirname(HERE)
 COMMON_NOTE = ("Trusted: Lean 4.33.0 kernel; axioms propext/Classical.choice/Quot.sound only (audited per theorem on every run); "
                "the hand-written model is tied to /repo's working tree by the correspondence run (F: bit-exact binary64, "
                "X: exact integers on the dyadic grid) and by an independent Python oracle of the property; harness/ and CPython. "
-               "The thorough tier runs ten times the cases and re-checks the compiled proofs with leanchecker. ")
+               "The thorough tier runs ten times the cases and re-checks the compiled proofs with leanchecker. "
+               "Histories on living objects (harness/living.py, DESIGN 11.9: the same call on an object with a past and on a fresh "
+               "object of the same observable state must agree, and the property's oracle judges the living result) are "
+               "monitoring at oracle level: no theorem speaks about object identity or state hidden between calls. ")
 
 CLAIMS = {}
 for _fn in sorted(os.listdir(os.path.join(HERE, "claims"))):
